@@ -4,6 +4,7 @@ import (
 	"encoding/json"
 	"fmt"
 	"math"
+	"reflect"
 	"sort"
 
 	"github.com/olive-io/bpmn/schema"
@@ -28,6 +29,7 @@ type c19Case struct {
 	Layout  []float64 `json:"layout"`  // startX, startY, colGap, rowGap, procGap ; nil = DefaultAutoLayoutConfig
 	N       int       `json:"n"`       // rawids: number of ids drawn
 	Reuse   int       `json:"reuse"`   // 0 fresh ProcessBuilder per process; 1 one builder reused after Out(); 2 reused builder that already produced a discarded process
+	DefReuse int      `json:"defreuse,omitempty"` // the definitions builder has already produced a document with this many processes (0 = fresh builder)
 	AST     *gen.Block `json:"ast,omitempty"` // graph: a parsed block-structured process handed to AddProcess (branches, loops, sub-processes)
 	Twice   bool      `json:"twice,omitempty"` // graph: AutoLayout called twice
 }
@@ -91,9 +93,9 @@ func c19Cases(tier string, seed uint64) []fw.Case {
 	}
 	li := 0
 	add := func(procs [][]int, preset bool) {
-		c := c19Case{Kind: "build", Procs: procs, Preset: preset, Layout: layouts[li%len(layouts)], Reuse: (li / 2) % 3}
+		c := c19Case{Kind: "build", Procs: procs, Preset: preset, Layout: layouts[li%len(layouts)], Reuse: (li / 2) % 3, DefReuse: []int{0, 0, 1, 2, 3}[li%5]}
 		li++
-		c.Name = fmt.Sprintf("build/%v/preset=%v/layout%d/reuse%d", procs, preset, li%len(layouts), c.Reuse)
+		c.Name = fmt.Sprintf("build/%v/preset=%v/layout%d/reuse%d/defreuse%d", procs, preset, li%len(layouts), c.Reuse, c.DefReuse)
 		cs = append(cs, fw.MkCase("build", &c))
 	}
 	// all sequences of length 0..3 (quick: 0..2 exhaustively + strided length 3)
@@ -157,6 +159,19 @@ type rect struct{ x, y, w, h float64 }
 
 func c19Build(c *c19Case, env *fw.Env, v *fw.V) {
 	db := schema.NewDefinitionsBuilder()
+	var earlier *schema.Definitions
+	var earlierDump []string
+	if c.DefReuse > 0 {
+		// the same definitions builder produced another document before this one
+		for i := 0; i < c.DefReuse; i++ {
+			pb := schema.NewProcessBuilder()
+			pb.AddActivity(c19Activity(i%len(c19Types), ""))
+			db.AddProcess(*pb.Out())
+		}
+		db.AutoLayout(schema.DefaultAutoLayoutConfig())
+		earlier = db.Out()
+		earlierDump = canon.Model(earlier)
+	}
 	var wantOrder []string
 	nact := 0
 	var shared *schema.ProcessBuilder
@@ -196,6 +211,51 @@ func c19Build(c *c19Case, env *fw.Env, v *fw.V) {
 	db.AutoLayout(cfg)
 	defs := db.Out()
 	cls := fmt.Sprintf("procs=%d", len(c.Procs))
+	if c.DefReuse > 0 {
+		cls = fmt.Sprintf("procs=%d-after-%d", len(c.Procs), c.DefReuse)
+		// the document handed out earlier is not touched by building the next one
+		if now := canon.Model(earlier); !reflect.DeepEqual(now, earlierDump) {
+			v.Violate("earlier-document-changed", cls, "the document the builder produced before (%d processes) changed while the next one was built: %v", c.DefReuse, firstDiff(earlierDump, now))
+			return
+		}
+	}
+	// 0. participants (the builder adds a collaboration when there are several processes): every participant
+	// refers to a process of THIS document, none twice; one per process once there are two or more
+	{
+		pids := map[string]bool{}
+		for pi := range *defs.Processes() {
+			if id, ok := (*defs.Processes())[pi].Id(); ok {
+				pids[*id] = true
+			}
+		}
+		np := 0
+		refd := map[string]int{}
+		for ci := range *defs.Collaborations() {
+			col := &(*defs.Collaborations())[ci]
+			for pi := range *col.Participants() {
+				np++
+				part := &(*col.Participants())[pi]
+				ref, ok := part.ProcessRef()
+				if !ok || !pids[string(*ref)] {
+					r := "<none>"
+					if ok {
+						r = string(*ref)
+					}
+					v.Violate("dangling-participant", cls, "participant refers to process %s, which is not in the document (processes %v)", r, keysOf(pids))
+					return
+				}
+				refd[string(*ref)]++
+				if refd[string(*ref)] > 1 {
+					v.Violate("dangling-participant", cls, "two participants refer to process %s", string(*ref))
+					return
+				}
+			}
+		}
+		if len(pids) >= 2 && np != len(pids) || len(pids) < 2 && np != 0 {
+			v.Violate("participant-count", cls, "%d participants for %d processes", np, len(pids))
+			return
+		}
+	}
 	// 1. ids unique
 	seen := map[string]int{}
 	var countIDs func(el schema.Element)
@@ -454,6 +514,31 @@ func c19Graph(c *c19Case, v *fw.V) {
 	if c19Layout(v, "graph", defs, cfg, true) {
 		v.Add("graphs", 1)
 	}
+}
+
+func keysOf(m map[string]bool) []string {
+	var out []string
+	for k := range m {
+		out = append(out, k)
+	}
+	sort.Strings(out)
+	return out
+}
+
+func firstDiff(a, b []string) string {
+	for i := 0; i < len(a) || i < len(b); i++ {
+		var x, y string
+		if i < len(a) {
+			x = a[i]
+		}
+		if i < len(b) {
+			y = b[i]
+		}
+		if x != y {
+			return fmt.Sprintf("line %d: %q -> %q", i, x, y)
+		}
+	}
+	return ""
 }
 
 func indexOf(s, sub string) int {
